@@ -19,7 +19,7 @@ RULE = ("all histories of <= D top-level ops over the ops enabled in the current
         "so all sentences are tried), tick (real call_heart_beat: heart beats + call_out sweep), remove_destructed_objects} from 4 "
         "initial worlds (empty / 3 objects flat / chain c in a in b with a living / two siblings in a, one living with timers); "
         "population <= 4 (blueprints a b, 2 clones; a destructed blueprint may be loaded again under its name); deviations "
-        "(budget B) decided at the entry of every create/init/move_or_destruct/verb hook: the hook's script {error(), move(any -> "
+        "(budget B) decided at the entry of every create/init/move_or_destruct/verb/heart_beat/call_out-callback hook: the hook's script {error(), move(any -> "
         "any) 16, destruct(any) 4, load a|b, clone, become living, any object (the one being destructed, the hook owner, another) calls set_heart_beat(1) 4, verb returns 1 (+ after destructing itself)}; an object "
         "destructed in the middle of one of its own functions then tries enable_commands/set_living_name/set_heart_beat/call_out/"
         "add_action/move_object on itself; epilogue: cleanup, tick, a command by every living object, cleanup; ObjectHashSize 2 / "
